@@ -250,6 +250,9 @@ class PE:
                     if isinstance(n, ast.Name):
                         env2[n.id] = UNKNOWN
             self._block(st.body, env2, guards + [(st, True)], calls, nxt)
+        elif isinstance(st, (ast.Continue, ast.Break)):
+            # end of this trip of the enclosing loop body
+            self._emit("fall", st, None, env, guards, calls)
         elif isinstance(st, ast.With):
             self._block(st.body, env, guards, calls, nxt)
         elif isinstance(st, ast.Try):
